@@ -790,6 +790,38 @@ class SymList:
         raise Unsupported("python iteration over a symbolic list")
 
 
+class Stub:
+    """`self` stand-in for a method under contract: attributes set by the harness win; anything else is looked up on the
+    real class (`_real`), so that helper methods, static methods and properties the method calls on `self` are the
+    repository's own (a refactoring that extracts a helper onto the class is followed)"""
+    _real = None
+
+    def __getattr__(self, a):
+        import inspect, types
+        real = object.__getattribute__(self, "_real") if "_real" in type(self).__dict__ or "_real" in self.__dict__ else type(self)._real
+        if real is None or (a.startswith("__") and a.endswith("__")):
+            raise AttributeError(a)
+        v = inspect.getattr_static(real, a)
+        if isinstance(v, staticmethod):
+            return v.__func__
+        if isinstance(v, classmethod):
+            return types.MethodType(v.__func__, real)
+        if isinstance(v, property):
+            return v.fget(self)
+        if inspect.isfunction(v):
+            return types.MethodType(v, self)
+        return v
+
+
+def stub_of(real, **attrs):
+    """an instance of a fresh Stub subclass bound to the real class"""
+    cls = type("StubOf" + getattr(real, "__name__", "X"), (Stub,), {"_real": real})
+    o = cls()
+    for k, v in attrs.items():
+        setattr(o, k, v)
+    return o
+
+
 class Token(dict):
     """an opaque container (a dict, so the repository's check_is_dict passes)
     whose content is arbitrary; identity is what contracts talk about"""
@@ -859,6 +891,7 @@ class Extracted:
         g.update(OVERRIDES)
         if overrides:
             g.update(overrides)
+        self._explicit_overrides = dict(overrides or {})
         g["_vc_rt"] = self
         self.globals = g
         exec(code, g)
@@ -875,4 +908,39 @@ class Extracted:
         return LoopRT(self, lid, it, modified, stores, attrs)
 
     def __call__(self, *a, **k):
+        # explicit overrides of names the module itself binds (imports, module-level helpers) are also visible to the module's
+        # OTHER functions for the duration of the call: a helper that the function under contract calls sees the same stand-ins
+        ov = getattr(self, "_explicit_overrides", None)
+        if ov:
+            import importlib
+            try:
+                mod = importlib.import_module(self.relpath[:-3].replace("/", "."))
+            except Exception:
+                mod = None
+            if mod is not None:
+                names = {n: v for n, v in ov.items() if n in mod.__dict__}
+                if names:
+                    with patched_globals(mod, **names):
+                        return self.fn(*a, **k)
         return self.fn(*a, **k)
+
+
+class patched_globals:
+    """temporarily rebind names in a real module's namespace (so that helper functions of that module which the function under
+    contract calls see the same stand-ins as the extracted function itself); restored on exit"""
+
+    def __init__(self, module, **names):
+        self.module, self.names, self.saved = module, names, {}
+
+    def __enter__(self):
+        for k, v in self.names.items():
+            self.saved[k] = self.module.__dict__.get(k, _UNBOUND)
+            self.module.__dict__[k] = v
+        return self
+
+    def __exit__(self, *exc):
+        for k, v in self.saved.items():
+            if v is _UNBOUND:
+                self.module.__dict__.pop(k, None)
+            else:
+                self.module.__dict__[k] = v
